@@ -61,6 +61,11 @@ func rvOf(f *FuncCtx, st *State, v Term, t types.Type) Term {
 	}
 	k := kindOfType(t)
 	r := f.fresh("rv", SRV)
+	if k == 24 && v.Sort == SStr {
+		// the Value of a string is a function of the string (rv_str): a contract can name the key reflect.ValueOf(field) denotes
+		f.declareFun("rv_str", []string{SStr}, SRV)
+		r = "(rv_str " + v.S + ")"
+	}
 	rt := Term{S: r, Sort: SRV}
 	if k == -1 {
 		// interface-typed operand: dynamic; relate through an uninterpreted function of the reference
